@@ -463,6 +463,12 @@ func runC06(c *fw.Case) {
 		c.Count("root_build_failed", 1)
 		return
 	}
+	if rng.Intn(6) == 0 {
+		if ar := aggregateDerive(rng, root); ar != nil {
+			root = ar
+			c.Count("roots_produced_by_aggregate", 1)
+		}
+	}
 	sh := root.Shadow
 	c.Count("shape:"+root.Shape, 1)
 	var progs []string
